@@ -18,7 +18,11 @@ PROP = "C08"
 MODE = "format"
 LEVEL = "proof"
 TRIVIAL_TAGS = []
-RULE = ("model stream: random well-formed trees of the modelled subset (literals incl. typed, variables with kinds, all 38 "
+RULE = ("model-ext stream (second round): random well-formed programs with map literals, tuple-struct values, table literals (1-3 "
+        "rows), comment statements, enum definitions, function definitions with match arms, match expressions with guards over "
+        "all pattern forms (wildcard, literal, variable, tuple, enum variant, array with spread / rest), set and matrix "
+        "comprehensions (generator, filter, let), mixed with first-round statements; "
+        "model stream: random well-formed trees of the modelled subset (literals incl. typed, variables with kinds, all 38 "
         "binary operators on the 7 precedence levels, parentheses, negation/not/transpose, ranges with and without increment, "
         "matrices 0..4 rows incl. jagged, sets, tuples, records, calls with named arguments, slices/subscripts, define/assign/"
         "op-assign with kind annotations, 1-4 statements), source rendered with varied whitespace/separators/operator "
@@ -32,9 +36,17 @@ ASSUMPTIONS = [
     "<[k]:r,c> kinds, formulas over all 38 binary operators with explicit parentheses, unary - and ¬, transpose, ranges "
     "with/without increment, matrices (0..n rows), sets, tuples (0 or >=2 elements), records, calls with named arguments, "
     "dot and bracket subscripts (entries: `:`, range, formula not beginning with an atom), define/assign/op-assign/"
-    "expression statements, one statement per line",
-    "ONLY comparison (2) (differential on the implementation, no model): enums, kind defines, functions, match, state machines, "
-    "comprehensions, tables, maps, tuple-structs, tuple destructuring, option/set/map/tuple/record/table kinds, comments, "
+    "expression statements, one statement per line; SECOND ROUND (Model/Fmt2.v): map literals `{k: v}` / `{:}` (first key not a "
+    "bare variable: that is a record), tuple-struct values `:ok(200)`, comment statements `-- text` (letters, digits, blanks "
+    "and ,.:;=()' only), enum definitions `<n> := :a<k> | :b`, function definitions with match arms, and as the right-hand "
+    "side of a define/assign/op-assign/expression statement only: table literals (kinds mandatory in the header; no "
+    "kind-annotated variable as a cell), match expressions `f? ├p, guard ⇒ e └* ⇒ e.` (source a factor) and set/matrix "
+    "comprehensions (generator / let / filter qualifiers; a filter is a formula beginning with a variable); patterns: "
+    "wildcard, literal, variable, tuple, enum variant `:some(p)`, array `[a b]` `[a … z]` `[h | t]` (array items are "
+    "wildcard/literal/variable)",
+    "ONLY comparison (2) (differential on the implementation, no model): kind defines, functions with statement bodies, state "
+    "machines, match / tables / comprehensions nested inside expressions, trailing comments, tuple destructuring, "
+    "option/set/map/tuple/record/table kinds, "
     "scientific / negative-imaginary literals, strings with escapes, raw strings, swizzles, brace subscripts, all Mechdown prose",
     "the Coq theorems are at token level: blanks/newlines are tokens, the text is the concatenation of token texts "
     "(C08_symbols_unambiguous: distinct symbols have distinct texts); that the real grapheme-level nom parser reads the "
@@ -84,12 +96,13 @@ NUMS = ["0", "1", "2", "7", "42", "100", "3.14", "0.5", "10.25", "0xFF", "0b101"
         "5u8", "12u64", "1+2i", "5i", "1.5+2.5i"]
 STRS = ["", "a", "hello", "Hello World", "a b  c", "x=1;", "[1 2]", "it's", "ünï", "100%"]
 ATOMS = ["a", "red", "ok", "Foo", "my-atom"]
+COMMENTS = [" a comment", " note: x = 1, y.", "", "x", "  two  spaces ", " TODO (later)", " it's 100", " A;B"]
 
 
 class G:
     """random trees; clean=True avoids every construct of a known model-level defect class"""
-    def __init__(self, rng, clean=False, jagged_p=0.0):
-        self.rng = rng; self.clean = clean; self.jagged_p = jagged_p
+    def __init__(self, rng, clean=False, jagged_p=0.0, ext=False):
+        self.rng = rng; self.clean = clean; self.jagged_p = jagged_p; self.ext = ext
 
     def kind(self, p=0.3):
         r = self.rng
@@ -141,6 +154,8 @@ class G:
         if t < 0.70: return ("set", [self.expr(d - 1) for _ in range(r.choice([0, 1, 2, 3]))])
         if t < 0.76: return ("tup", [self.expr(d - 1) for _ in range(r.choice([0, 2, 2, 3]))])
         if t < 0.82: return ("rec", [(f, self.kind(0.3), self.expr(d - 1)) for f in r.sample(FIELDS, r.choice([1, 2, 3]))])
+        if self.ext and t < 0.86: return self.map_(d)
+        if self.ext and t < 0.89: return self.tups(d)
         if t < 0.92: return self.call(d)
         return self.slice_(d)
 
@@ -193,6 +208,102 @@ class G:
 
     def slice_(self, d): return ("slice", self.rng.choice(IDENTS), self.subs(d))
 
+    # ---- second round: maps, tuple-structs, tables, comments, enums, functions, match, patterns, comprehensions
+    def skind(self): return ("ks", self.rng.choice(KINDS))
+
+    def map_(self, d):
+        r = self.rng
+        n = r.choice([0, 1, 2, 2, 3])
+        ms = []
+        for i in range(n):
+            k = self.lit() if r.random() < 0.6 else self.formula(d - 1)
+            if i == 0 and k[0] == "var": k = self.lit()
+            ms.append((k, self.expr(d - 1)))
+        return ("map", ms)
+
+    def tups(self, d): return ("tups", self.rng.choice(ATOMS), self.expr(d - 1))
+
+    def pitem(self):
+        r = self.rng; t = r.random()
+        if t < 0.2: return ("pw",)
+        if t < 0.55:
+            l = self.lit()
+            return ("pl", l[1], l[2], l[3])
+        return ("pv", r.choice(IDENTS), self.kind(0.1))
+
+    def pat(self, d=2):
+        r = self.rng; t = r.random()
+        if d <= 0 or t < 0.5: return self.pitem()
+        if t < 0.65: return ("pt", [self.pat(d - 1) for _ in range(r.choice([1, 2, 2, 3]))])
+        if t < 0.8: return ("ps", r.choice(ATOMS), [self.pat(d - 1) for _ in range(r.choice([1, 1, 2]))])
+        pre = [self.pitem() for _ in range(r.choice([0, 1, 1, 2]))]
+        u = r.random()
+        if u < 0.35: tl = ("none", [])
+        elif u < 0.7: tl = ("spread", [self.pitem() for _ in range(r.choice([0, 0, 1, 2]))])
+        else: tl = ("rest", [self.pitem()])
+        return ("pa", pre, tl)
+
+    def table(self, d):
+        r = self.rng
+        fs = [(f, ("ks", r.choice(KINDS)) if r.random() < 0.8 else ("km", r.choice(KINDS), [str(r.choice([1, 2])) for _ in range(r.choice([0, 2]))]))
+              for f in r.sample(FIELDS, r.choice([1, 2, 3]))]
+        rows = []
+        for _ in range(r.choice([1, 1, 2, 3])):
+            row = []
+            for _ in fs:
+                c = self.expr(d - 1)
+                if c[0] == "var" and c[2] is not None: c = ("var", c[1], None)
+                row.append(c)
+            rows.append(row)
+        return ("table", fs, rows)
+
+    def match(self, d):
+        r = self.rng
+        src = self.core(d - 1) if r.random() < 0.8 else self.factor(d - 1)
+        arms = []
+        for i in range(r.choice([1, 2, 2, 3, 4])):
+            g = self.formula(d - 1) if r.random() < 0.25 else None
+            arms.append((self.pat(), g, self.expr(d - 1)))
+        if r.random() < 0.7: arms[-1] = (("pw",), None, arms[-1][2])
+        return ("match", src, arms)
+
+    def compr(self, d):
+        r = self.rng
+        qs = [("gen", self.pat(1), self.expr(d - 1))]
+        for _ in range(r.choice([0, 0, 1, 2])):
+            t = r.random()
+            if t < 0.35: qs.append(("gen", self.pat(1), self.expr(d - 1)))
+            elif t < 0.75:
+                lvl = r.choice([2, 2, 7])
+                ops = [o for o in BY_LEVEL[lvl] if not (self.clean and o in DEFECT_OPS)]
+                qs.append(("filt", ("term", ("var", r.choice(IDENTS), None), [(r.choice(ops), self.formula(d - 1, lvl + 1))])))
+            else: qs.append(("let", r.choice(IDENTS), self.kind(0.2), self.expr(d - 1)))
+        return ("compr", r.random() < 0.5, self.expr(d - 1), qs)
+
+    def rhs(self, d):
+        r = self.rng; t = r.random()
+        if t < 0.3: return self.table(d)
+        if t < 0.6: return self.match(d)
+        if t < 0.85: return self.compr(d)
+        return self.map_(d) if r.random() < 0.6 else self.tups(d)
+
+    def stmt2(self, d):
+        """a statement of the second-round subset"""
+        r = self.rng; t = r.random()
+        if t < 0.12: return ("com", r.choice(COMMENTS))
+        if t < 0.22:
+            return ("enum", r.choice(["color", "res", "T1", "my-enum"]),
+                    [(a, self.kind(0.4) if r.random() < 0.5 else None) for a in r.sample(ATOMS, r.choice([1, 2, 3]))])
+        if t < 0.36:
+            args = [(x, self.skind()) for x in r.sample(["x", "y", "n"], r.choice([1, 1, 2]))]
+            arms = [(self.pat(), self.expr(d - 1)) for _ in range(r.choice([1, 2, 2, 3]))]
+            return ("fun", r.choice(["fz", "power", "fact", "my-fun"]), args, self.skind(), arms)
+        if t < 0.8: return ("def", r.random() < 0.2, r.choice(IDENTS), self.kind(0.2), self.rhs(d))
+        if t < 0.86: return ("asg", r.choice(IDENTS), self.subs(d) if r.random() < 0.4 else [], self.rhs(d))
+        if t < 0.9: return ("opasg", self.subs(d) if r.random() < 0.4 else [], r.choice(IDENTS), r.choice(list(AOPS)), self.rhs(d))
+        rh = self.rhs(d)
+        return ("expr", rh)
+
     def stmt(self, d):
         r = self.rng; t = r.random()
         if t < 0.5: return ("def", r.random() < 0.25, r.choice(IDENTS), self.kind(0.35), self.expr(d))
@@ -218,6 +329,8 @@ def e_sx(e):
     if t == "mat": return ["mat"] + [["row"] + [e_sx(x) for x in row] for row in e[1]]
     if t in ("set", "tup", "brk"): return [t] + [e_sx(x) for x in e[1]]
     if t == "rec": return ["rec"] + [["b", q(n), k_sx(k), e_sx(x)] for n, k, x in e[1]]
+    if t == "map": return ["map"] + [["m", e_sx(k), e_sx(v)] for k, v in e[1]]
+    if t == "tups": return ["tups", q(e[1]), e_sx(e[2])]
     if t == "call": return ["call", q(e[1])] + [(["arg", e_sx(x)] if n is None else ["named", q(n), e_sx(x)]) for n, x in e[2]]
     if t == "slice": return ["slice", q(e[1])] + [e_sx(s) for s in e[2]]
     if t == "dot": return ["dot", q(e[1])]
@@ -227,12 +340,45 @@ def e_sx(e):
     raise ValueError(t)
 
 
+def i_sx(p):
+    if p[0] == "pw": return ["pw"]
+    if p[0] == "pl": return ["pl", p[1], (1 if p[2] else 0) if p[1] == "bool" else q(p[2]), k_sx(p[3])]
+    return ["pv", q(p[1]), k_sx(p[2])]
+
+
+def p_sx(p):
+    t = p[0]
+    if t in ("pw", "pl", "pv"): return i_sx(p)
+    if t == "pt": return ["pt"] + [p_sx(x) for x in p[1]]
+    if t == "ps": return ["ps", q(p[1])] + [p_sx(x) for x in p[2]]
+    return ["pa", [i_sx(x) for x in p[1]], [p[2][0]] + [i_sx(x) for x in p[2][1]]]
+
+
+def r_sx(e):
+    t = e[0]
+    if t == "table":
+        return ["table", ["fields"] + [["f", q(n), k_sx(k)] for n, k in e[1]]] + [["row"] + [e_sx(c) for c in row] for row in e[2]]
+    if t == "match":
+        return ["match", e_sx(e[1])] + [(["arm", p_sx(p), e_sx(x)] if g is None else ["arm", p_sx(p), e_sx(g), e_sx(x)]) for p, g, x in e[2]]
+    if t == "compr":
+        qs = []
+        for qq in e[3]:
+            if qq[0] == "gen": qs.append(["gen", p_sx(qq[1]), e_sx(qq[2])])
+            elif qq[0] == "let": qs.append(["let", q(qq[1]), k_sx(qq[2]), e_sx(qq[3])])
+            else: qs.append(["filt", e_sx(qq[1])])
+        return ["compr", 1 if e[1] else 0, e_sx(e[2])] + qs
+    return e_sx(e)
+
+
 def s_sx(s):
     t = s[0]
-    if t == "def": return ["def", 1 if s[1] else 0, q(s[2]), k_sx(s[3]), e_sx(s[4])]
-    if t == "asg": return ["asg", q(s[1]), [e_sx(x) for x in s[2]], e_sx(s[3])]
-    if t == "opasg": return ["opasg", [e_sx(x) for x in s[1]], q(s[2]), s[3], e_sx(s[4])]
-    return ["expr", e_sx(s[1])]
+    if t == "def": return ["def", 1 if s[1] else 0, q(s[2]), k_sx(s[3]), r_sx(s[4])]
+    if t == "asg": return ["asg", q(s[1]), [e_sx(x) for x in s[2]], r_sx(s[3])]
+    if t == "opasg": return ["opasg", [e_sx(x) for x in s[1]], q(s[2]), s[3], r_sx(s[4])]
+    if t == "com": return ["com", q(s[1])]
+    if t == "enum": return ["enum", q(s[1])] + [["v", q(a), k_sx(k)] for a, k in s[2]]
+    if t == "fun": return ["fun", q(s[1]), ["args"] + [["a", q(x), k_sx(k)] for x, k in s[2]], k_sx(s[3])] + [["arm", p_sx(p), e_sx(x)] for p, x in s[4]]
+    return ["expr", r_sx(s[1])]
 
 
 def ends_dot(e):
@@ -305,6 +451,10 @@ class R:
         if t == "tup": return "(" + ("," if not (self.vary() or adjacent_swizzle(e[1])) else ", ").join(self.e(x) for x in e[1]) + ")"
         if t == "rec":
             return "{" + (", " if not self.vary() else ",").join(n + self.k(k) + ":" + (" " if not self.vary() else "") + self.e(x) for n, k, x in e[1]) + "}"
+        if t == "map":
+            if not e[1]: return "{:}" if not self.vary() else "{ : }"
+            return "{" + (", " if not self.vary() else ",").join(self.e(k) + ":" + (" " if not self.vary() else "") + self.e(v) for k, v in e[1]) + "}"
+        if t == "tups": return ":" + e[1] + "(" + self.osp() + self.e(e[2]) + self.osp() + ")"
         if t == "call":
             return e[1] + "(" + (", " if not self.vary() else ",").join((n + ": " if n else "") + self.e(x) for n, x in e[2]) + ")"
         if t == "slice": return e[1] + "".join(self.e(s) for s in e[2])
@@ -315,12 +465,67 @@ class R:
         if t == "rangei": return self.e(e[1]) + ("..=" if e[2] else "..") + self.e(e[3]) + ("..=" if e[4] else "..") + self.e(e[5])
         raise ValueError(t)
 
+    def i(self, p):
+        if p[0] == "pw": return "*"
+        if p[0] == "pl": return self.e(("lit", p[1], p[2], p[3]))
+        return p[1] + self.k(p[2])
+
+    def p(self, p):
+        t = p[0]
+        if t in ("pw", "pl", "pv"): return self.i(p)
+        if t == "pt": return "(" + (", " if not self.vary() else ",").join(self.p(x) for x in p[1]) + ")"
+        if t == "ps": return ":" + p[1] + "(" + (", " if not self.vary() else ",").join(self.p(x) for x in p[2]) + ")"
+        parts = [self.i(x) for x in p[1]]
+        if p[2][0] == "spread": parts += ["..." if self.vary() else "…"] + [self.i(x) for x in p[2][1]]
+        elif p[2][0] == "rest": parts += ["|", self.i(p[2][1][0])]
+        return "[" + " ".join(parts) + "]"
+
+    def r(self, e):
+        t = e[0]; r = self.rng
+        if t == "table":
+            hdr = "| " + self.sp().join(n + self.k(k) for n, k in e[1]) + " |"
+            rows = ["| " + self.sp().join(self.e(c) for c in row) + " |" for row in e[2]]
+            if self.vary(): return hdr + "\n" + "\n".join("     " + x for x in rows)
+            return hdr + " " + " ".join(x[2:] for x in rows)
+        if t == "match":
+            out = self.e(e[1]) + "?"
+            n = len(e[2])
+            for i, (p, g, x) in enumerate(e[2]):
+                if self.v > 0:
+                    br = r.choice(["\n  | ", "\n  ├ " if i + 1 < n else "\n  └ ", " | "])
+                    arrow = r.choice([" => ", " ⇒ "])
+                else:
+                    br = "\n\n├" if i == 0 else ("\n├" if i + 1 < n else "\n└"); arrow = " ⇒ "
+                    if n == 1: br = "\n\n└"
+                    elif i + 1 == n: br = "\n└"
+                out += br + self.p(p) + ((", " + self.e(g)) if g is not None else "") + arrow + self.e(x)
+            return out + "."
+        if t == "compr":
+            op, cl = ("[", "]") if e[1] else ("{", "}")
+            qs = []
+            for qq in e[3]:
+                if qq[0] == "gen": qs.append(self.p(qq[1]) + (" <- " if self.vary() else " ← ") + self.e(qq[2]))
+                elif qq[0] == "let": qs.append(qq[1] + self.k(qq[2]) + " := " + self.e(qq[3]))
+                else: qs.append(self.e(qq[1]))
+            pad = "" if self.vary() else " "
+            return op + pad + self.e(e[2]) + " | " + ", ".join(qs) + pad + cl
+        return self.e(e)
+
     def s(self, s):
         t = s[0]
-        if t == "def": return ("~" if s[1] else "") + s[2] + self.k(s[3]) + self.sp() + ":=" + self.sp() + self.e(s[4])
-        if t == "asg": return s[1] + "".join(self.e(x) for x in s[2]) + self.sp() + "=" + self.sp() + self.e(s[3])
-        if t == "opasg": return s[2] + "".join(self.e(x) for x in s[1]) + self.sp() + AOPS[s[3]] + self.sp() + self.e(s[4])
-        return self.e(s[1])
+        if t == "def": return ("~" if s[1] else "") + s[2] + self.k(s[3]) + self.sp() + ":=" + self.sp() + self.r(s[4])
+        if t == "asg": return s[1] + "".join(self.e(x) for x in s[2]) + self.sp() + "=" + self.sp() + self.r(s[3])
+        if t == "opasg": return s[2] + "".join(self.e(x) for x in s[1]) + self.sp() + AOPS[s[3]] + self.sp() + self.r(s[4])
+        if t == "com": return "--" + s[1]
+        if t == "enum": return "<" + s[1] + ">" + self.sp() + ":=" + self.sp() + (" | " if not self.vary() else "|").join(":" + a + self.k(k) for a, k in s[2])
+        if t == "fun":
+            out = s[1] + "(" + (", " if not self.vary() else ",").join(x + self.k(k) for x, k in s[2]) + ") => " + self.k(s[3])
+            n = len(s[4])
+            for i, (p, x) in enumerate(s[4]):
+                br = "  | " if self.vary() else ("  ├ " if i + 1 < n else "  └ ")
+                out += "\n" + br + self.p(p) + " => " + self.e(x)
+            return out + "."
+        return self.r(s[1])
 
     def prog(self, stmts):
         seps = ["\n", "\n\n", "\n"] if self.v > 0 else ["\n"]
@@ -357,6 +562,41 @@ def fixed_model_cases(rng):
     for a in AOPS: out.append(model_case([("opasg", [], "x", a, n1)], rng, 0.0, "model-fixed"))
     out.append(model_case([("def", True, "x", ("km", "u8", ["2", "3"]), ("mat", [[n1, n2, n3], [n3, n2, n1]]))], rng, 0.0, "model-fixed"))
     out.append(model_case([("asg", "x", [("brk", [n1, n2])], n3)], rng, 0.0, "model-fixed"))
+    return out
+
+
+def fixed_ext_cases(rng):
+    n1, n2 = ("lit", "num", "1", None), ("lit", "num", "2", None)
+    va, vb = ("var", "a", None), ("var", "b", None)
+    sx_ = ("lit", "str", "x", None)
+    out = []
+    def one(st, v=0.0): out.append(model_case(st, rng, v, "model-ext-fixed"))
+    for v in (0.0, 1.0):
+        one([("def", False, "m", None, ("map", []))], v)
+        one([("def", False, "m", None, ("map", [(sx_, n1), (n2, va)]))], v)
+        one([("def", False, "x", None, ("table", [("a", ("ks", "f64")), ("b", ("ks", "string"))], [[n1, sx_], [n2, sx_]]))], v)
+        one([("def", False, "x", None, ("table", [("a", ("ks", "u8"))], [[n1]]))], v)
+        one([("expr", ("table", [("a", ("ks", "u8"))], [[n1], [va], [n2]]))], v)
+        one([("com", " a comment"), ("def", False, "x", None, n1), ("com", ""), ("com", "x")], v)
+        one([("enum", "color", [("red", None), ("green", None), ("blue", None)])], v)
+        one([("enum", "res", [("ok", ("ks", "u64")), ("err", ("ks", "string"))])], v)
+        one([("def", False, "x", None, ("lit", "atom", "ok", None)), ("def", False, "y", None, ("tups", "ok", ("lit", "num", "200", None)))], v)
+        one([("fun", "fact", [("n", ("ks", "u64"))], ("ks", "u64"),
+              [(("pl", "num", "0", None), n1), (("pv", "n", None), ("term", ("var", "n", None), [("mul", ("call", "fact", [(None, ("term", ("var", "n", None), [("sub", n1)]))]))]))])], v)
+        one([("fun", "fz", [("x", ("ks", "u64")), ("y", ("ks", "u64"))], ("ks", "u64"),
+              [(("pt", [("pl", "num", "0", None), ("pw",)]), n1), (("pt", [("pv", "a", None), ("pv", "b", None)]), ("term", va, [("add", vb)]))])], v)
+        one([("def", False, "y", None, ("match", va, [(("pl", "num", "1", None), None, n2), (("pw",), None, n1)]))], v)
+        one([("def", False, "y", None, ("match", va, [(("pv", "v", None), ("term", ("var", "v", None), [("gt", n1)]), n2), (("pw",), None, n1)]))], v)
+        one([("def", False, "y", None, ("match", va, [(("pa", [], ("none", [])), None, n1), (("pa", [("pv", "h", None)], ("spread", [])), None, ("var", "h", None)),
+                                                     (("pa", [("pv", "h", None)], ("rest", [("pv", "t", None)])), None, ("var", "h", None)), (("pw",), None, n2)]))], v)
+        one([("def", False, "y", None, ("match", va, [(("ps", "some", [("pv", "v", None)]), None, ("var", "v", None)), (("pl", "atom", "none", None), None, n1), (("pw",), None, n2)]))], v)
+        one([("expr", ("match", va, [(("pw",), None, n1)]))], v)
+        one([("asg", "y", [], ("match", va, [(("pl", "str", "s", None), None, n1), (("pl", "bool", True, None), None, n2), (("pw",), None, n1)]))], v)
+        one([("expr", ("compr", False, ("term", va, [("mul", n2)]), [("gen", ("pv", "a", None), vb)]))], v)
+        one([("expr", ("compr", False, va, [("gen", ("pv", "a", None), vb), ("filt", ("term", va, [("gt", n2)]))]))], v)
+        one([("expr", ("compr", False, vb, [("gen", ("pv", "a", None), ("var", "s", None)), ("let", "b", None, ("term", va, [("mul", n2)]))]))], v)
+        one([("expr", ("compr", True, ("term", va, [("mul", n2)]), [("gen", ("pv", "a", None), ("mat", [[n1, n2, n1]]))]))], v)
+        one([("def", False, "q", None, ("compr", False, ("tup", [va, vb]), [("gen", ("pv", "a", None), ("var", "s", None)), ("gen", ("pv", "b", None), ("var", "t", None))]))], v)
     return out
 
 
@@ -548,6 +788,13 @@ def generate(tier, rng):
         g = G(rng, clean=False, jagged_p=0.08)
         stmts = [g.stmt(rng.choice([1, 1, 2, 2, 3])) for _ in range(rng.choice([1, 1, 2, 3, 4]))]
         yield model_case(stmts, rng, 0.0 if i % 2 else 0.4, "model-all")
+    # second-round subset: maps, tuple-structs, tables, comments, enums, function definitions with arms, match, comprehensions
+    for c in fixed_ext_cases(rng): yield c
+    for i in range(600 if quick else 10000):
+        g = G(rng, clean=(i % 3 != 2), ext=True, jagged_p=0.0)
+        if i % 3 == 0: stmts = [g.stmt2(rng.choice([1, 2, 2, 3]))]
+        else: stmts = [(g.stmt2 if rng.random() < 0.6 else g.stmt)(rng.choice([1, 2, 2])) for _ in range(rng.choice([1, 2, 3]))]
+        yield model_case(stmts, rng, 0.0 if i % 2 else 0.4, "model-ext")
     # whole grammar, grammar-based: every item alone, then combinations of two or three items in one program
     for rep in range(3 if quick else 40):
         items = gen_items(rng)
